@@ -248,3 +248,84 @@ def flat_alias_of_like(f):
             if like or node.value.func.attr == 'flatten':
                 out.append((x, x.value.id, base, node, like[0] if like else None))
     return out
+
+
+VALUE_CHANGERS = ('nan_to_num', 'clip', 'round', 'around', 'rint', 'abs', 'absolute', 'trunc', 'floor', 'ceil', 'fillna', 'where',
+                  'maximum', 'minimum', 'fmax', 'fmin', 'sort', 'unique', 'interp')
+
+
+def check_dispatch_passthrough(prog, rep, rule, pub, entry=None):
+    """A public wrapper around the backend dispatch (`mapper(agg)(agg.data, ...)`; `return DataArray(out, ...)`) is glue:
+    the backend function gets the rasters' own cells and its result is what the caller gets.  Decided on the wrapper terms
+    (wterm.py) of the public function, whatever its locals and helpers are called:
+
+    * every returned value wraps the dispatch result itself - not a function of it (`nan_to_num(out)`, `clip`), and no path
+      returns something computed without the backend function (a "fast path" has no kernel behind it);
+    * a raster argument of the dispatch is the raster's data as given or a dtype cast of it - not pushed through a
+      value-changing function first.
+
+    Only wrappers that have this shape give obligations (others - hillshade's own isinstance dispatch, the zonal functions -
+    are covered by their own rules); the callers put a floor on the count."""
+    from .wterm import WT, key as tkey, show as tshow, walk as twalk
+    entry = entry or pub.name
+    w = WT(prog)
+    try:
+        ret = w.run(pub)
+    except Exception:      # noqa - the terms are best effort; no verdict without them
+        return 0
+
+    def leaves(t_):
+        if isinstance(t_, tuple) and t_ and t_[0] == 'phi':
+            return leaves(t_[2]) + leaves(t_[3])
+        return [t_] if t_ is not None else []
+
+    def is_dispatch(t_):
+        return isinstance(t_, tuple) and t_ and t_[0] == 'call' and isinstance(t_[1], tuple) and t_[1] and t_[1][0] == 'call' and \
+            len(t_[1][2]) == 1 and not t_[1][3]
+
+    def data_of(lf):
+        if isinstance(lf, tuple) and lf and lf[0] == 'call' and str(lf[1]).endswith('DataArray'):
+            return lf[2][0] if lf[2] else dict(lf[3]).get('data')
+        return None
+    lfs = leaves(ret)
+    disp = [d_ for d_ in (data_of(lf) for lf in lfs) if d_ is not None and is_dispatch(d_)]
+    inner = [x for lf in lfs for x in twalk(lf) if is_dispatch(x)]
+    if not inner:
+        return 0                       # not a dispatch wrapper
+    n = 0
+    bad = []
+    for lf in lfs:
+        d_ = data_of(lf)
+        if d_ is not None and is_dispatch(d_):
+            continue
+        if any(is_dispatch(x) for x in twalk(lf)):
+            bad.append('the backend result is post-processed before it is returned: %s' % tshow(d_ if d_ is not None else lf, 90))
+        else:
+            bad.append('a path returns a value the backend function never saw: %s' % tshow(d_ if d_ is not None else lf, 90))
+    n += 1
+    rep.add(rule, pub, entry, '%s returns the backend result as it is' % pub.name, pub.node.lineno, not bad,
+            'the wrapper hands back what the backend function computed, on every path; ' + '; '.join(bad[:2]))
+    rasters = set()
+    for d_ in inner:
+        for a_ in list(d_[2]) + [v_ for k_, v_ in d_[3]]:
+            for x in twalk(a_):
+                if isinstance(x, tuple) and len(x) == 2 and x[0] == 'data' and isinstance(x[1], tuple) and x[1][0] == 'param':
+                    rasters.add(x[1][1])
+    for d_ in inner[:1]:
+        for i_, a_ in enumerate(list(d_[2]) + [v_ for k_, v_ in d_[3]]):
+            base = a_
+            while isinstance(base, tuple) and base and base[0] == 'cast':
+                base = base[1]
+            if isinstance(base, tuple) and len(base) == 2 and base[0] == 'data' and base[1][0] == 'param':
+                n += 1
+                rep.add(rule, pub, entry, 'backend argument %d = %s' % (i_, tshow(a_, 70)), pub.node.lineno, True, '')
+                continue
+            hits = [x for x in twalk(a_) if isinstance(x, tuple) and len(x) >= 3 and x[0] == 'call' and
+                    str(x[1] if not isinstance(x[1], tuple) else x[1][-1]).split('.')[-1] in VALUE_CHANGERS and
+                    any(isinstance(y, tuple) and len(y) == 2 and y[0] == 'data' and isinstance(y[1], tuple) and y[1][0] == 'param' for y in twalk(x))]
+            if hits:
+                n += 1
+                rep.add(rule, pub, entry, 'backend argument %d = %s' % (i_, tshow(a_, 70)), pub.node.lineno, False,
+                        'the backend function must see the raster\'s own cells: here they pass through `%s` first' %
+                        str(hits[0][1] if not isinstance(hits[0][1], tuple) else hits[0][1][-1]))
+    return n
